@@ -507,8 +507,94 @@ static void prop_c10(Tape &t, Result &r) {
     files["m"] = defs_text(defs) + gen_stream(t, defs) + " ; " + gen_stream(t, defs);
   judge_run(files, env_int("VERIF_MACRO_STEPS", 6), r, "C10");
 }
-static void enum_c10_(Runner &run, int s, int n, const std::string &tier) { enum_c09(run, s, n, tier, "C10"); }
-static void json_c10(const J &c, Result &r) { judge_run(files_of(c), (int)c.at("budget").i(), r, "C10"); }
+// long runs: hundreds of expansion steps of temporary-using macros in one apply_macros call. Every step must
+// introduce names that no other step of the run uses ("different from every temporary of every other expansion
+// step"), however far apart the steps are - the step-validated runs above only cover the first few steps.
+static void judge_long_run(const glue::Files &files, int budget, Result &r) {
+  r.sample = case_json(files, budget);
+  r.hash = glue::files_hash(files, "m") ^ 0x10c0ffeeULL;
+  Prepared p;
+  if (!prepare(files, p, r)) return;
+  std::vector<Theo::MacroDefinition> defs = p.impl.defs;
+  Theo::MacroApplicationResult res = Theo::apply_macros(p.impl.input, defs, (unsigned)budget);
+  for (auto &e : res.errors)
+    if (e.t == Theo::ParseError::MACRO_APPLY_REACHED_MAX_PASSES) {
+      r.discard = true;
+      r.cls("discard:long-run-exceeds-budget");
+      return;
+    }
+  // expected: the sources below use T exactly `uses` times and W exactly `nests` times; T introduces one
+  // temporary (written twice), W two. Count the distinct names that are not user-writable identifiers.
+  std::vector<Tok> out = strip_eof(res.transformed_sequence);
+  std::vector<Tok> in = strip_eof(p.impl.input);
+  long uses = 0;
+  for (auto &t : in)
+    if (t.k == K::ID && (t.text == "T")) uses += 1;
+  long nests = 0;
+  for (auto &t : in)
+    if (t.k == K::ID && (t.text == "W")) nests += 1;
+  std::map<std::string, long> temp_occ;
+  for (auto &t : out) {
+    if (t.k != K::ID) continue;
+    auto lexed = ref::lex_text(t.text, "m");
+    if (lexed.size() == 1 && lexed[0].k == K::ID) continue;  // a name a user can write: not a temporary
+    temp_occ[t.text]++;
+  }
+  long expected_names = uses * 1 + nests * 2;
+  if ((long)temp_occ.size() != expected_names) {
+    r.fail("hygiene:shared-between-steps", std::to_string(uses + nests) + " expansion steps of temporary-using macros must introduce " +
+                                               std::to_string(expected_names) + " distinct temporary names, the expanded stream has " +
+                                               std::to_string(temp_occ.size()) + " (two steps share a name)");
+    return;
+  }
+  for (auto &e : temp_occ)
+    if (e.second != 2) {
+      r.fail("hygiene:shared-between-steps", "temporary name '" + e.first + "' occurs " + std::to_string(e.second) +
+                                                 " times in the expanded stream; each step writes each of its temporaries exactly twice");
+      return;
+    }
+  r.cls("long-run:" + std::to_string(uses + nests) + "-steps");
+  r.nontrivial = uses + nests >= 2;
+}
+
+static glue::Files long_run_source(int uses, int nest_every) {
+  // T <ID> : one temporary, written twice.  W <P> END : two temporaries, the slot may contain T uses (nested)
+  std::string s =
+      "DEFINE T <ID> AS #0 := $0 ; $0 := #0 END DEFINE\n"
+      "DEFINE W <P> END AS #0 := 2 ; #1 := #0 ; LOOP #1 DO $0 END END DEFINE\n";
+  for (int i = 0; i < uses; i++) {
+    if (i) s += " ;\n";
+    if (nest_every && i % nest_every == 0)
+      s += "W T a ; T b END";
+    else
+      s += "T x" + std::to_string(i % 7);
+  }
+  return glue::Files{{"m", s}};
+}
+
+static void enum_c10_(Runner &run, int s, int n, const std::string &tier) {
+  enum_c09(run, s, n, tier, "C10");
+  // long runs, spread over the shards
+  static const int USES[] = {40, 130, 257, 300, 520, 700};
+  for (size_t i = 0; i < sizeof USES / sizeof *USES; i++) {
+    if ((int)(i % (size_t)n) != s) continue;
+    if (tier != "thorough" && USES[i] > 320) continue;
+    for (int nest : {0, 50}) {
+      glue::Files f = long_run_source(USES[i], nest);
+      Result r;
+      run.journal_case(case_json(f, 1023));
+      judge_long_run(f, 1023, r);
+      r.cls("enum:long-run");
+      run.record(r);
+    }
+  }
+}
+static void json_c10(const J &c, Result &r) {
+  if ((int)c.at("budget").i() >= 1000)
+    judge_long_run(files_of(c), (int)c.at("budget").i(), r);
+  else
+    judge_run(files_of(c), (int)c.at("budget").i(), r, "C10");
+}
 static Reg reg_c10({"C10", 300, prop_c10, enum_c10_, json_c10});
 
 // ------------------------------------------------------------------------------ C11
